@@ -52,6 +52,15 @@ func vfMakePacket(ssrc uint32, w uint16, id, n, shape int) (*rtp.Header, []byte)
 		h.Extension = true
 		h.ExtensionProfile = 0xBEDE
 		_ = h.SetExtension(5, []byte{byte(id % 256), 7})
+	case 10: // the application's own extension under the id the stream negotiated for transport-cc (7), too short for a number
+		h.Extension = true
+		h.ExtensionProfile = 0xBEDE
+		_ = h.SetExtension(7, []byte{byte(id % 256)})
+	case 11: // ... and one that is a well-formed transport-wide number already (a forwarded packet of another leg)
+		h.Extension = true
+		h.ExtensionProfile = 0xBEDE
+		_ = h.SetExtension(7, []byte{byte(id % 256), 3})
+		_ = h.SetExtension(5, []byte{9})
 	case 4:
 		if n > 0 && n < 190 {
 			h.Padding = true
